@@ -4,6 +4,7 @@ For each /tmp/mut/<Cnn>/<v> (ID = Cnn/v): (1) the unedited suite passes with the
 change, (3) the demo passes without it. Results: /tmp/confirm/<Cnn><v>.json. The worktree /tmp/cf-LANE is reused."""
 import json, os, re, subprocess, sys, time
 lane = sys.argv[1]; ids = sys.argv[2:]
+BASE = os.environ.get("MUT_BASE", "/tmp/mut"); OUT = os.environ.get("CONFIRM_DIR", "/tmp/confirm"); os.makedirs(OUT, exist_ok=True)
 wt = "/tmp/cf-%s" % lane
 if not os.path.isdir(wt):
     subprocess.run(["git", "-C", "/repo", "worktree", "add", "-q", "--detach", wt, "HEAD"], check=True)
@@ -20,7 +21,7 @@ def tally(out):
     return passed, failed
 for mid in ids:
     prop, v = mid.split("/")
-    src = "/tmp/mut/%s/%s" % (prop, v)
+    src = "%s/%s/%s" % (BASE, prop, v)
     name = "demo_%s%s" % (prop.lower(), v)
     res = {"id": prop + v, "property": prop}
     sh("git checkout -q -- . && git clean -fdq tests src")
@@ -45,5 +46,5 @@ for mid in ids:
     ok = res.get("patch_applies") and res["suite_with_change"]["exit"] == 0 and res["suite_with_change"]["failed"] == 0 and res["suite_with_change"]["passed"] >= 299 \
         and res["demo_with_change"]["exit"] != 0 and res["demo_without_change"]["exit"] == 0 and res.get("builds_with_verif")
     res["confirmed"] = bool(ok)
-    json.dump(res, open("/tmp/confirm/%s%s.json" % (prop, v), "w"), indent=1)
+    json.dump(res, open("%s/%s%s.json" % (OUT, prop, v), "w"), indent=1)
     print(prop + v, "confirmed" if ok else "NOT CONFIRMED", res.get("suite_with_change"), res.get("demo_with_change", {}).get("exit"), res.get("demo_without_change", {}).get("exit"), flush=True)
